@@ -379,8 +379,51 @@ fn expired(e: &Expiration, w: &World) -> bool {
     }
 }
 
+/// the account enumeration the supply sum relies on is complete and pages consistently
+fn c18_enumeration(ctx: &StepCtx, stats: &mut Stats, out: &mut Vec<Violation>) {
+    use cw20::{AllAccountsResponse, Cw20QueryMsg};
+    if ctx.idx % 8 != 5 {
+        return;
+    }
+    for tok in [Tok::B, Tok::St] {
+        let t = match ctx.post.t(tok) {
+            Some(t) => t,
+            None => continue,
+        };
+        stats.check("c18_account_enumeration");
+        for (a, b) in &t.bal {
+            if *b > 0 && !t.accounts.contains(a) {
+                viol(out, "C18", "account_enumeration_complete", ctx.idx, &format!("{}.AllAccounts:missing", tok.addr()), format!("{:?}: {} holds {} but AllAccounts does not list it", tok, a, b));
+                break;
+            }
+        }
+        let page = 1 + (ctx.idx as u32 / 8 % 3);
+        let mut paged: Vec<String> = vec![];
+        let mut start: Option<String> = None;
+        for _ in 0..(t.accounts.len() + 2) {
+            match crate::wasm::query_typed::<_, AllAccountsResponse>(ctx.post_w, tok.addr(), &Cw20QueryMsg::AllAccounts { start_after: start.clone(), limit: Some(page) }) {
+                Ok(p) => {
+                    if p.accounts.is_empty() {
+                        break;
+                    }
+                    start = p.accounts.last().cloned();
+                    paged.extend(p.accounts);
+                }
+                Err(e) => {
+                    viol(out, "C18", "account_enumeration_complete", ctx.idx, &format!("{}.AllAccounts:failed", tok.addr()), format!("AllAccounts(start {:?}, limit {}) failed: {}", start, page, e));
+                    break;
+                }
+            }
+        }
+        if paged != t.accounts {
+            viol(out, "C18", "account_enumeration_complete", ctx.idx, &format!("{}.AllAccounts:paging", tok.addr()), format!("{:?}: AllAccounts in pages of {} gives {:?}, in one page {:?}", tok, page, paged, t.accounts));
+        }
+    }
+}
+
 pub fn c18_all(m: &mut Mon, ctx: &StepCtx, stats: &mut Stats, out: &mut Vec<Violation>) {
     c18_supply(m, ctx.idx, ctx.post, stats, out);
+    c18_enumeration(ctx, stats, out);
     let o = match ctx.out {
         Some(o) => o,
         None => return,
